@@ -353,11 +353,19 @@ struct CostProgram
     Vec e, p0;
     std::vector<double> segw;
     uint32_t uses = 0; // bit mask of arguments the running cost depends on (p,v,a,j,s,t_global,i)
+    // style 0: the smooth family above.  1: purely linear in one position coordinate (value exactly 0 where that
+    // coordinate is 0, gradient not).  2: as 0 plus a hard barrier (+inf on a time-dependent subset of samples).
+    // 3: one-sided penalty that returns early WITHOUT touching its outputs when inactive (the library zeroes them).
+    int style = 0;
+    double hinge_thr = 0, hinge_w = 0;
 
-    static CostProgram make(uint64_t seed, int nmax, int order, bool small_gradients)
+    static CostProgram make(uint64_t seed, int nmax, int order, bool small_gradients, int style = 0)
     {
         Rng r(seed, 0xc057);
         CostProgram c;
+        c.style = style;
+        c.hinge_thr = r.real(0.5, 20.0);
+        c.hinge_w = r.real(1e-4, 1e-2);
         c.tw.resize(nmax);
         c.segw.resize(nmax);
         c.wm.resize(nmax + 1);
@@ -407,6 +415,7 @@ struct CallCtx
     long abort_call = 0;
     long calls_seen = 0;
     bool aborted = false;
+    uint64_t abort_seg_mask = 0; // running cost fails on every sample of these segments (condition-based failure)
     void maybe_abort(int functor)
     {
         if (abort_functor != functor) return;
@@ -489,7 +498,34 @@ struct SimRunningCost
     {
         cost_yield("running_cost");
         cc->maybe_abort(3);
+        if (cc->abort_seg_mask && i >= 0 && i < 62 && ((cc->abort_seg_mask >> i) & 1))
+        {
+            { NoRace g; cc->aborted = true; }
+            throw InjectedAbort(); // a condition-based failure: every sample of these segments fails
+        }
         const CostProgram<DIM> &P = *cc->prog;
+        if (P.style == 1)
+        {
+            // linear in one coordinate: exactly zero where that coordinate is zero, with a non-zero gradient
+            double c1 = 1.5 * p(0);
+            gp(0) = 1.5;
+            if (cc->trace) record(t, tg, i, p, v, a, j, s, c1);
+            return c1;
+        }
+        if (P.style == 3)
+        {
+            double sq = v.squaredNorm();
+            if (sq <= P.hinge_thr)
+            {
+                if (cc->trace) record(t, tg, i, p, v, a, j, s, 0.0);
+                return 0.0; // inactive: outputs deliberately left untouched
+            }
+            double d = sq - P.hinge_thr;
+            double c3 = P.hinge_w * d * d * d * d; // C^3 at the activation boundary (finite differences need smoothness)
+            gv = (8.0 * P.hinge_w * d * d * d) * v;
+            if (cc->trace) record(t, tg, i, p, v, a, j, s, c3);
+            return c3;
+        }
         const double m = (i >= 0 && i < (int)P.segw.size()) ? P.segw[i] : 1.0;
         Vec dp = p - P.p0;
         double c = 0.5 * P.wp * dp.squaredNorm() + 0.5 * P.wv * v.squaredNorm() + 0.5 * P.wa * a.squaredNorm() +
@@ -509,7 +545,7 @@ struct SimRunningCost
             gt = P.A * P.omega * cs * ep - P.B * P.omega * sn;
         }
         c *= m; gp *= m; gv *= m; ga *= m; gj *= m; gs *= m; gt *= m;
-        if (RunCtx::dump_values()) std::fprintf(stderr, "RC i=%d t=%a tg=%a c=%a p0=%a v0=%a s0=%a gt=%a\n", i, t, tg, c, p(0), v(0), s(0), gt);
+        if (P.style == 2 && std::sin(7.0 * tg + i) > 0.9) c = INFINITY; // hard barrier on some samples
         if (cc->fault.functor == 3)
         {
             const int comp = cc->fault.comp % DIM;
@@ -523,19 +559,20 @@ struct SimRunningCost
             default: gt += cc->fault.delta; break;
             }
         }
-        if (cc->trace)
-        {
-            NoRace g;
-            Sample<DIM> smp{t, tg, i, p, v, a, j, s, c};
-            if (i >= 0 && i < (int)cc->trace->per_seg.size())
-            {
-                if (cc->trace->per_seg[i].empty()) cc->trace->arrival.push_back(i);
-                cc->trace->per_seg[i].push_back(smp);
-            }
-            else
-                cc->trace->other_seg.push_back(i);
-        }
+        if (cc->trace) record(t, tg, i, p, v, a, j, s, c);
         return c;
+    }
+    void record(double t, double tg, int i, const Vec &p, const Vec &v, const Vec &a, const Vec &j, const Vec &s, double c) const
+    {
+        NoRace g;
+        Sample<DIM> smp{t, tg, i, p, v, a, j, s, c};
+        if (i >= 0 && i < (int)cc->trace->per_seg.size())
+        {
+            if (cc->trace->per_seg[i].empty()) cc->trace->arrival.push_back(i);
+            cc->trace->per_seg[i].push_back(smp);
+        }
+        else
+            cc->trace->other_seg.push_back(i);
     }
 };
 
